@@ -269,6 +269,34 @@ def mv_guard_scenario(cfg):
     return ops
 
 
+def hostile_root_scenarios():
+    """scripted histories (C01): a NEW object is committed at object roots (no layout: `commit -r`; flat-direct
+    layout: the id is the path) that name a place inside another object, beside the storage root, or contain
+    `.` / `..` / empty components before or after components that do not exist yet.  Whatever rocfl answers, the
+    storage tree must stay a valid OCFL hierarchy (no nested object, no empty directory, nothing beside the root);
+    the last, harmless root must be accepted.  All targets stay inside the scratch directory."""
+    out = []
+    base = {"repo_spec": "1.1", "obj_spec": "1.1", "alg": "sha512", "cdir": "content", "pad": 0, "ext_staging": False}
+    roots = ["a/inner", "tmp/../a/inner", "ghost/../../escaped", "a/../b", "./c/./d", "x//y", "new/sub/../../a/v1/content/deep",
+             "a/v1", "extensions/e", "q/..", "fine/o2"]
+    for fresh in (False, True):
+        cfg = dict(base, layout="none", fresh_handle=fresh)
+        ops = [{"op": "new", "id": "o1"}, {"op": "cp_ext", "id": "o1", "files": [["a.txt", 1]], "dst": "a.txt", "recursive": False},
+               {"op": "commit", "id": "o1", "object_root": "a"},
+               {"op": "new", "id": "o2"}, {"op": "cp_ext", "id": "o2", "files": [["b.txt", 2]], "dst": "b.txt", "recursive": False}]
+        for r in roots:
+            ops.append({"op": "commit", "id": "o2", "object_root": r})
+        out.append((cfg, ops))
+    cfg = dict(base, layout="0002", fresh_handle=False)
+    ops = [{"op": "new", "id": "a"}, {"op": "cp_ext", "id": "a", "files": [["a.txt", 1]], "dst": "a.txt", "recursive": False},
+           {"op": "commit", "id": "a"}]
+    for k, r in enumerate(roots):
+        ops += [{"op": "new", "id": r}, {"op": "cp_ext", "id": r, "files": [["b.txt", 2 + k]], "dst": "b.txt", "recursive": False},
+                {"op": "commit", "id": r}]
+    out.append((cfg, ops))
+    return out
+
+
 def stranger_ids(cfg, main_rel_roots):
     """ids of objects that NEVER exist in the history but whose layout path is related to an existing object's
     root (a prefix directory, a path inside it, another id mapped to the same root) plus degenerate ids:
